@@ -180,6 +180,82 @@ def frame_scenarios(ctx, ff, st_p, en_p):
                  a, b, fps, occ, got[0], got[1], want[0], want[1]), construct=cons, definite=True)
 
 
+def velocity_rows_are_active_rows(ctx, rule='VELO/rows-are-the-active-rows'):
+  """"its velocity ... in its active frames": the rows of the velocity roll written for a note are the rows of the active roll
+  written for it (sibling agreement of the two slice bounds, in normal form)."""
+  fi = ctx.func(SL + ':sequence_to_pianoroll')
+  fn = fi.node
+  ret = next((c for c in U.calls_in(fn) if (dotted(c.func) or '').split('.')[-1] == 'Pianoroll'), None)
+  kw = dict((k.arg, k.value) for k in ret.keywords) if ret is not None else {}
+  act, vel = kw.get('active'), kw.get('active_velocities')
+  cons = 'the velocity roll is written in the rows of the active roll'
+  if not (isinstance(act, ast.Name) and isinstance(vel, ast.Name)):
+    why = 'cannot classify: the active and active_velocities rolls handed to Pianoroll(...) are not plain locals'
+    ctx.ob(rule, fi, fn, False, why, construct=cons, unknown=why)
+    return
+
+  def row_slices(name):
+    out = []
+    for st in U.walk_stmts(fn):
+      if isinstance(st, ast.Assign) and len(st.targets) == 1 and isinstance(st.targets[0], ast.Subscript) and norm_text(st.targets[0].value) == name and \
+          isinstance(st.targets[0].slice, ast.Tuple) and len(st.targets[0].slice.elts) == 2 and isinstance(st.targets[0].slice.elts[0], ast.Slice) and U.const_value(st.value) != 0:
+        out.append((st, st.targets[0].slice.elts[0]))
+    return out
+  a, v = row_slices(act.id), row_slices(vel.id)
+  if not a or not v:
+    why = 'cannot classify: no row-slice store into %s / %s found' % (act.id, vel.id)
+    ctx.ob(rule, fi, fn, False, why, construct=cons, unknown=why)
+    return
+  for st, sl in v:
+    try:
+      same = any(nf.equal(U.expand_locals(fn, sl.lower, at=st), U.expand_locals(fn, s2.lower, at=t2)) and nf.equal(U.expand_locals(fn, sl.upper, at=st), U.expand_locals(fn, s2.upper, at=t2))
+                 for t2, s2 in a if sl.lower is not None and sl.upper is not None and s2.lower is not None and s2.upper is not None)
+      readable = True
+    except Exception:      # pylint: disable=broad-except
+      same, readable = False, False
+    opaque_call = any(isinstance(c_, ast.Call) and (dotted(c_.func) or '') not in ('min', 'max') for b_ in (sl.lower, sl.upper) if b_ is not None for c_ in ast.walk(U.expand_locals(fn, b_, at=st)))
+    if not readable or (not same and opaque_call):
+      why = 'cannot classify: the row bounds %s of the velocity store are not in normal form' % norm_text(sl)
+      ctx.ob(rule, fi, st, False, why, construct=cons, unknown=why)
+    else:
+      ctx.ob(rule, fi, st, same, 'velocity rows %s are the active rows' % norm_text(sl) if same else
+             'the velocity of a note is written into rows %s while its active frames are rows %s: the velocity leaks into frames in which the note is not active (and overwrites the last '
+             'frames of an earlier note of that pitch)' % (norm_text(sl), ' / '.join(norm_text(s2) for _t, s2 in a)), construct=cons, definite=True)
+
+
+def one_column_index(ctx, rule='DEC/one-column-index'):
+  """pianoroll_to_note_sequence reads the frame, onset, offset and velocity matrices at [frame, column].  Inside one function (the
+  converter itself, each nested helper) every such read uses the same column expression - a helper that derives `column` from a
+  MIDI pitch and then reads one matrix at [i - 1, pitch] looks at a foreign column."""
+  fi = ctx.func(SL + ':pianoroll_to_note_sequence')
+  mats = set(p_ for p_ in fi.params() if p_ in ('frames', 'onset_predictions', 'offset_predictions', 'velocity_values'))
+  scopes = [fi.node] + [g.node for g in fi.nested.values()]
+  n = 0
+  for sc in scopes:
+    inner = set(id(y) for g in scopes if g is not sc and g is not fi.node for y in ast.walk(g)) if sc is fi.node else set()
+    own = [x for x in ast.walk(sc) if id(x) not in inner]
+    cols = {}
+    for x in own:
+      if isinstance(x, ast.Subscript) and isinstance(x.value, ast.Name) and x.value.id in mats and isinstance(x.slice, ast.Tuple) and len(x.slice.elts) == 2:
+        c = norm_text(U.expand_locals(sc, x.slice.elts[1], at=x))
+        cols.setdefault(c, []).append(x)
+    if not cols:
+      continue
+    n += 1
+    name = getattr(sc, 'name', '?')
+    cons = '%s reads the prediction matrices at one column' % name
+    if len(cols) == 1:
+      ctx.ob(rule, fi, sc, True, 'every matrix read in %s uses column %s' % (name, list(cols)[0]), construct=cons)
+    else:
+      minority = min(cols.items(), key=lambda kv: len(kv[1]))
+      ctx.ob(rule, fi, minority[1][0], False, '%s reads the matrices at column %s in %d places and at column %s in `%s`: the two differ (%s), so that read looks at another pitch\'s '
+             'column (or past the last one)' % (name, max(cols.items(), key=lambda kv: len(kv[1]))[0], max(len(v_) for v_ in cols.values()), minority[0], norm_text(minority[1][0]),
+                                                 ' vs '.join(sorted(cols))), construct=cons, definite=True)
+  if n == 0:
+    why = 'cannot classify: no [frame, column] read of a prediction matrix found in pianoroll_to_note_sequence'
+    ctx.ob(rule, fi, fi.node, False, why, construct='matrix reads use one column', unknown=why)
+
+
 def column_in_range(ctx, fi, loop, v):
   """Scenario form of "notes outside the pitch range are ignored": with min_pitch = 21 and max_pitch = 108, a note of pitch 20
   (column -1: numpy wraps it to the last column) or 109 (one past the last column) must not reach any store whose column is computed
@@ -233,6 +309,8 @@ def column_in_range(ctx, fi, loop, v):
 
 
 def run(ctx):
+  one_column_index(ctx)
+  velocity_rows_are_active_rows(ctx)
   ignored_notes_cannot_raise(ctx, 'SKIP/ignored-notes-cannot-raise')
   onset_label_clamp(ctx, ctx.func(SL + ':sequence_to_pianoroll'))
   encoder(ctx)
